@@ -854,7 +854,7 @@ CHECKS = {
                           'FastPasta.C01.run_ids_nodup', 'FastPasta.C01.conforming_input_clean', 'FastPasta.C03.scanLoop_benign', 'FastPasta.C01.conforming_stave_accepted',
                           'FastPasta.C01.conforming_stave_stream_accepted', 'FastPasta.C01.conforming_input_clean_stave', 'FastPasta.C01.run_clean_of_quiet_validators', 'FastPasta.C01.conforming_input_clean_plain',
                           'FastPasta.Proto.spayload_sim', 'FastPasta.Proto.ssegs_sim', 'FastPasta.Proto.frameOk_checks', 'FastPasta.Proto.laneOk_verdict']),
-    'C02': dict(modules=['FastPasta.Props.C02'], run=run_c02, needs_harness=False, corr='run_faulted',
+    'C02': dict(modules=['FastPasta.Props.C02', 'FastPasta.Props.C02Run'], run=run_c02, needs_harness=False, corr='run_faulted',
                 theorems=['FastPasta.C02.rdh_sanity_fault_detected', 'FastPasta.C02.rdh_running_fault_detected', 'FastPasta.C02.sanity_mode_no_e11',
                           'FastPasta.C02.ihw_fault_detected', 'FastPasta.C02.tdh_fault_detected', 'FastPasta.C02.tdt_fault_detected',
                           'FastPasta.C02.ddw0_fault_detected', 'FastPasta.C02.ddw0_needs_stop_bit', 'FastPasta.C02.ddw0_needs_page_gt_0',
@@ -868,7 +868,10 @@ CHECKS = {
                           'FastPasta.C02.tdh_bc_order_at_any_depth', 'FastPasta.C02.tdh_first_copies_after_conforming_prefix',
                           'FastPasta.C02.tdh_cont_copies_after_conforming_prefix', 'FastPasta.C02.depth_setup', 'FastPasta.C02.quiet_governing_tdh',
                           'FastPasta.C02.tdh_first_copies', 'FastPasta.C02.tdh_bc_decreasing', 'FastPasta.C02.tdh_cont_copies',
-                          'FastPasta.C02.checkWord_fsm_rdh', 'FastPasta.C02.checkWord_tdh']),
+                          'FastPasta.C02.checkWord_fsm_rdh', 'FastPasta.C02.checkWord_tdh',
+                          # link level -> whole run: stored in the report, counted, exit status N
+                          'FastPasta.C02.link_finding_reported_and_exit', 'FastPasta.C02.run_form_check', 'FastPasta.C06.dispatch_partition',
+                          'FastPasta.C14.run_errors_nofatal']),
     'C06': dict(modules=['FastPasta.Props.C06'], run=run_c06, needs_harness=True, corr='link_*',
                 theorems=['FastPasta.C06.dispatch_partition', 'FastPasta.C06.interleave_invariant', 'FastPasta.C06.other_links_irrelevant',
                           'FastPasta.C06.step_inv', 'FastPasta.C06.run_inv', 'FastPasta.C06.upd_other', 'FastPasta.C06.upd_own']),
